@@ -259,6 +259,38 @@ func checkMain(repo, verif string, args []string) int {
 		}
 	}
 
+	// ---- C20: whole-package frame analysis and coverage list
+	var frameFindings []FrameFinding
+	var notUnderContract []string
+	frameFuncs := 0
+	if *prop == "C20" {
+		ff, n, ferr := frameCheck(w)
+		if ferr != nil {
+			genErrors = append(genErrors, "frame analysis: "+ferr.Error())
+		}
+		frameFindings, frameFuncs = ff, n
+		for _, n := range w.funcNames() {
+			if w.contracts.Funcs[n] == nil {
+				notUnderContract = append(notUnderContract, n)
+			}
+		}
+	}
+	if *prop == "C20" {
+		bad := map[string]bool{}
+		for _, f := range frameFindings {
+			bad[f.Func] = true
+		}
+		nObl += frameFuncs
+		nDis += frameFuncs - len(bad)
+		byKind["frame"] += frameFuncs
+		bySolver["syntactic frame analysis (go/ssa)"] += frameFuncs - len(bad)
+	}
+	var noVariant []string
+	for _, wn := range warnings {
+		if strings.Contains(wn, "no variant") {
+			noVariant = append(noVariant, wn)
+		}
+	}
 	allDead, deadReturns := deadFunctions(obls)
 	failed = append(failed, allDead...)
 	// ---- baseline: every obligation discharged on the reference tree must still be generated
@@ -289,7 +321,7 @@ func checkMain(repo, verif string, args []string) int {
 	isKnown := func(id string) *KnownFinding {
 		for i := range known {
 			k := &known[i]
-			if k.Status != "open" || k.Property != *prop {
+			if k.Status != "open" {
 				continue
 			}
 			for _, p := range k.Obligations {
@@ -309,7 +341,10 @@ func checkMain(repo, verif string, args []string) int {
 			excluded = append(excluded, o.ID)
 			if !printed[k.What] {
 				printed[k.What] = true
-				line := fmt.Sprintf("KNOWN-FINDING: property=%s %s", *prop, k.What)
+				line := fmt.Sprintf("KNOWN-FINDING: property=%s %s", k.Property, k.What)
+				if k.Property != *prop {
+					line += " (obligation shared with the cone of " + *prop + ")"
+				}
 				fmt.Println(line)
 				knownPrinted = append(knownPrinted, line)
 			}
@@ -331,6 +366,9 @@ func checkMain(repo, verif string, args []string) int {
 		}
 		confirmed := tryReplay(w, *prop, o, detail)
 		reportViolation(o.ID, detail, confirmed)
+	}
+	for _, f := range frameFindings {
+		reportViolation("frame/"+f.Func+"@"+f.Pos, map[string]interface{}{"kind": "frame", "explanation": "the function writes to memory visible outside the call: " + f.What, "position": f.Pos, "function": f.Func}, false)
 	}
 	for _, id := range missing {
 		reportViolation(id, map[string]interface{}{"explanation": "obligation present in the baseline is no longer generated (function or anchor removed, or the function left the supported subset)", "errors": genErrors}, false)
@@ -396,6 +434,10 @@ func checkMain(repo, verif string, args []string) int {
 		"excluded_by_known_findings": excluded,
 		"baseline_missing":         missing,
 		"unreachable_returns":      deadReturns,
+		"frame_functions_checked":  frameFuncs,
+		"frame_findings":           len(frameFindings),
+		"functions_without_contract": notUnderContract,
+		"termination_not_proved":   dedup(noVariant),
 		"samples":                  samples,
 		"explanation":              "contract-based deductive verification: weakest-precondition style VCs generated from go/ssa of the current working tree, discharged by SMT solvers; see DESIGN.md",
 		"evaluations":              nObl + nProbe,
